@@ -14,25 +14,45 @@ structure Ghost where
 
 def Ghost.init : Ghost := ⟨[], [], []⟩
 
+/-- bookkeeping of an allocation (`new…` or `alloc…`) of identity `a` -/
+def galloc (g : Ghost) (s : St) (a : Addr) : Kind → Ghost
+  | .raw => { g with allocd := a :: g.allocd, rawLive := a :: g.rawLive }
+  | _ => if s.running then { g with allocd := a :: g.allocd } else { g with allocd := a :: g.allocd, lost := a :: g.lost }
+
 def gstep (g : Ghost) (s : St) : Op → Ghost
-  | .new a k _ _ _ =>
-    match k with
-    | .raw => { g with allocd := a :: g.allocd, rawLive := a :: g.rawLive }
-    | _ => if s.running then { g with allocd := a :: g.allocd } else { g with allocd := a :: g.allocd, lost := a :: g.lost }
+  | .new a k _ _ _ => galloc g s a k
+  | .alloc a k _ _ => galloc g s a k
   | .del a k =>
     match k with
     | .raw => { g with rawLive := g.rawLive.filter (fun x => x != a) }
     | _ => g
+  | .dealloc a _ => { g with rawLive := g.rawLive.filter (fun x => x != a) }
+  -- the identities a destructor will allocate are reserved: no later allocation may use them
+  | .dtor _ l => { g with allocd := l.map (·.addr) ++ g.allocd }
   | _ => g
 
-/-- the program's obligations at one operation: identities are fresh; `del_raw` only for a raw object that has not been
-    `del_raw`ed yet -/
+/-- the program's obligations at one operation: identities are fresh; `del_raw` and `dealloc(destruct(·))` only for a
+    raw object that has not been released yet (`dealloc` of a registered object is known finding
+    KF-C06-dealloc-registered: it does not unregister) -/
 def OpOk (g : Ghost) : Op → Prop
   | .new a _ _ _ _ => a ∉ g.allocd
+  | .alloc a _ _ _ => a ∉ g.allocd
   | .del a k => match k with
     | .raw => a ∈ g.rawLive
     | _ => True
+  | .dealloc a _ => a ∈ g.rawLive
+  | .dtor _ l => (∀ d ∈ l, d.addr ∉ g.allocd) ∧ (l.map (·.addr)).Nodup
   | _ => True
+
+/-- `op` declares a destructor that allocates -/
+def Op.isDtor : Op → Bool
+  | .dtor _ _ => true
+  | _ => false
+
+/-- no object of the history has a destructor that allocates (the territory of known finding KF-C06-dtor-alloc) -/
+def NoDtor (ops : List Op) : Prop := ∀ op ∈ ops, op.isDtor = false
+
+instance (ops : List Op) : Decidable (NoDtor ops) := by unfold NoDtor; infer_instance
 
 /-- a history that meets the program's obligations, from ghost `g` and collector state `s` -/
 def WF : Ghost → St → List Op → Prop
@@ -48,6 +68,9 @@ instance (g : Ghost) (op : Op) : Decidable (OpOk g op) := by
   | stop => unfold OpOk; infer_instance
   | start => unfold OpOk; infer_instance
   | teardown r => unfold OpOk; infer_instance
+  | alloc a k m r => unfold OpOk; infer_instance
+  | dealloc a k => unfold OpOk; infer_instance
+  | dtor a l => unfold OpOk; infer_instance
 
 def WF.dec : ∀ (g : Ghost) (s : St) (ops : List Op), Decidable (WF g s ops)
   | _, _, [] => isTrue trivial
@@ -69,16 +92,18 @@ structure Inv (g : Ghost) (s : St) : Prop where
   done : ∀ a ∈ g.allocd, a ∉ s.regAddrs → a ∉ g.rawLive → a ∉ g.lost → Once a s.log
   fresh : ∀ a, a ∉ g.allocd → Clean a s.log
   sep : ∀ a ∈ g.rawLive, a ∉ g.lost
+  nodalloc : NoDAlloc s
 
 theorem Inv.init : Inv Ghost.init St.init :=
   ⟨rfl, List.nodup_nil, by simp [St.init, St.regAddrs], by simp [Ghost.init], by simp [Ghost.init],
-   fun a _ => Clean.nil a, by simp [Ghost.init]⟩
+   fun a _ => Clean.nil a, by simp [Ghost.init], rfl⟩
 
 theorem Inv.congr {g : Ghost} {s s' : St} (h : Inv g s) (hr : s'.reg = s.reg) (hp : s'.pending = s.pending)
-    (hl : s'.log = s.log) : Inv g s' := by
+    (hl : s'.log = s.log) (hd : s'.dalloc = s.dalloc) : Inv g s' := by
   have hra : s'.regAddrs = s.regAddrs := by unfold St.regAddrs; rw [hr]
   exact ⟨by rw [hp]; exact h.pending, by rw [hra]; exact h.nodup, by rw [hra, hl]; exact h.reg,
-    by rw [hra, hl]; exact h.loose, by rw [hra, hl]; exact h.done, by rw [hl]; exact h.fresh, h.sep⟩
+    by rw [hra, hl]; exact h.loose, by rw [hra, hl]; exact h.done, by rw [hl]; exact h.fresh, h.sep,
+    by unfold NoDAlloc; rw [hd]; exact h.nodalloc⟩
 
 theorem Inv.disj {g : Ghost} {s : St} (h : Inv g s) : Disj s := by
   intro a ha; rw [h.pending] at ha; simp at ha
@@ -102,7 +127,7 @@ theorem inv_eff_gen {g g' : Ghost} {s s' : St} {D0 D X : List Addr} {E : List Ev
   have hmem : ∀ a, a ∈ s'.regAddrs ↔ a ∈ s.regAddrs ∧ a ∉ D0 := by
     intro a; unfold St.regAddrs; rw [he.reg]; exact mem_regWithout_addrs
   have hnX : ∀ a, a ∉ g.rawLive → a ∉ X := fun a h hx => h (hX a hx)
-  refine ⟨?_, ?_, ?_, ?_, ?_, ?_, ?_⟩
+  refine ⟨?_, ?_, ?_, ?_, ?_, ?_, ?_, he.nodalloc hI.nodalloc⟩
   · rw [he.pending, hI.pending]; rfl
   · unfold St.regAddrs; rw [he.reg]; exact nodup_regWithout hI.nodup
   · intro a ha'
@@ -168,221 +193,236 @@ theorem inv_sweep {g : Ghost} {s : St} (hI : Inv g s) (marks order : List Addr) 
         (∀ e ∈ s.reg, swept marks e = true → e.addr ∈ D) ∧
         (∀ d ∈ D, ∃ e ∈ s.reg, swept marks e = true ∧ (d = e.addr ∨ ReachT s (· ∈ s.regAddrs) e.addr d)) ∧
         (s.running = true → ∀ d ∈ D, ∀ y ∈ s.ownsOf d, y ∈ s.regAddrs → y ∈ D) := by
-  obtain ⟨D, E, he, hg, hD, hsw, hr, hk⟩ := sweep_spec s marks order hI.pending hI.nodup
+  obtain ⟨D, E, he, hg, hD, hsw, hr, hk⟩ := sweep_spec s marks order hI.pending hI.nodup hI.nodalloc
   exact ⟨inv_eff hI he hg hD, D, E, he, hg, hD, hsw, hr, hk⟩
 
-theorem step_new_raw (c : Cfg) (s : St) (a : Addr) (owned marks order : List Addr) :
-    step c s (.new a .raw owned marks order) = { s with owns := (a, owned) :: s.owns } := rfl
+theorem allocBy_raw (c : Cfg) (s : St) (a : Addr) (marks order : List Addr) :
+    allocBy c s a .raw marks order = s := rfl
 
-theorem step_new_stopped (c : Cfg) (s : St) (a : Addr) {k : Kind} (owned marks order : List Addr)
+theorem allocBy_stopped (c : Cfg) (s : St) (a : Addr) {k : Kind} (marks order : List Addr)
     (hk : k ≠ .raw) (hr : s.running = false) :
-    step c s (.new a k owned marks order) = { s with owns := (a, owned) :: s.owns } := by
-  cases k <;> simp_all [step]
+    allocBy c s a k marks order = s := by
+  cases k <;> simp_all [allocBy, gcSet]
 
-theorem step_new_reg_sweep (c : Cfg) (s : St) (a : Addr) {k : Kind} (owned marks order : List Addr)
+theorem allocBy_reg_sweep (s : St) (a : Addr) {k : Kind} (marks order : List Addr)
     (hk : k ≠ .raw) (hr : s.running = true) (ht : s.reg.length + 1 > s.mitems) :
-    step c s (.new a k owned marks order) =
-      { sweep c { s with reg := s.reg ++ [⟨a, k == .root⟩] } marks order with
-        owns := (a, owned) :: (sweep c { s with reg := s.reg ++ [⟨a, k == .root⟩] } marks order).owns } := by
+    allocBy Cfg.current s a k marks order =
+      sweep Cfg.current { s with reg := s.reg ++ [⟨a, k == .root⟩] } marks order := by
   have h' : s.mitems < s.reg.length + 1 := by omega
   cases k with
   | raw => exact absurd rfl hk
-  | std => simp [step, hr, h']
-  | root => simp [step, hr, h']
+  | std => simp [allocBy, gcSet, hr, h', Cfg.current]
+  | root => simp [allocBy, gcSet, hr, h', Cfg.current]
 
-theorem step_new_reg_plain (c : Cfg) (s : St) (a : Addr) {k : Kind} (owned marks order : List Addr)
+theorem allocBy_reg_plain (s : St) (a : Addr) {k : Kind} (marks order : List Addr)
     (hk : k ≠ .raw) (hr : s.running = true) (ht : ¬ s.reg.length + 1 > s.mitems) :
-    step c s (.new a k owned marks order) =
-      { s with reg := s.reg ++ [⟨a, k == .root⟩], owns := (a, owned) :: s.owns } := by
+    allocBy Cfg.current s a k marks order = { s with reg := s.reg ++ [⟨a, k == .root⟩] } := by
   have h' : ¬ (s.mitems < s.reg.length + 1) := by omega
   cases k with
   | raw => exact absurd rfl hk
-  | std => simp [step, hr, h']
-  | root => simp [step, hr, h']
+  | std => simp [allocBy, gcSet, hr, h', Cfg.current]
+  | root => simp [allocBy, gcSet, hr, h', Cfg.current]
 
-/-- every operation of a well-formed history keeps the invariant, only appends to the ledger, and changes `running`
-    only if it is `stop`/`start` -/
-theorem inv_step {g : Ghost} {s : St} (hI : Inv g s) (op : Op) (hok : OpOk g op) :
+/-- `alloc_by` of a fresh identity keeps the invariant (with or without the threshold collection it may run) -/
+theorem inv_allocBy {g : Ghost} {s : St} (hI : Inv g s) (a : Addr) (k : Kind) (marks order : List Addr)
+    (hok : a ∉ g.allocd) :
+    Inv (galloc g s a k) (allocBy Cfg.current s a k marks order) ∧
+      (∃ E, (allocBy Cfg.current s a k marks order).log = s.log ++ E) ∧
+      (s.running = true → (allocBy Cfg.current s a k marks order).running = true) ∧
+      (allocBy Cfg.current s a k marks order).pending = [] := by
+  have hfresh : a ∉ g.allocd := hok
+  have hareg : a ∉ s.regAddrs := fun h => hfresh (hI.reg a h).1
+  -- registration of a fresh identity (new / new_root, collector running)
+  have hregd : ∀ (root : Bool), Inv { g with allocd := a :: g.allocd } { s with reg := s.reg ++ [⟨a, root⟩] } := by
+    intro root
+    have hra : ({ s with reg := s.reg ++ [⟨a, root⟩] } : St).regAddrs = s.regAddrs ++ [a] := by
+      simp [St.regAddrs]
+    refine ⟨hI.pending, ?_, ?_, ?_, ?_, ?_, hI.sep, hI.nodalloc⟩
+    · rw [hra, List.nodup_append]
+      refine ⟨hI.nodup, by simp, ?_⟩
+      intro x hx y hy hxy
+      rw [List.mem_singleton] at hy; subst hy; subst hxy; exact hareg hx
+    · intro x hx
+      rw [hra, List.mem_append, List.mem_singleton] at hx
+      rcases hx with hx | rfl
+      · obtain ⟨r1, r2, r3, r4⟩ := hI.reg x hx
+        exact ⟨List.mem_cons_of_mem _ r1, r2, r3, r4⟩
+      · exact ⟨List.mem_cons_self, fun h => hfresh (hI.loose _ (Or.inl h)).1,
+          fun h => hfresh (hI.loose _ (Or.inr h)).1, hI.fresh _ hfresh⟩
+    · intro x hx
+      obtain ⟨l1, l2, l3⟩ := hI.loose x hx
+      refine ⟨List.mem_cons_of_mem _ l1, ?_, l3⟩
+      rw [hra, List.mem_append, List.mem_singleton, not_or]
+      exact ⟨l2, fun h => hfresh (h ▸ l1)⟩
+    · intro x hx h2 h3 h4
+      rw [hra, List.mem_append, List.mem_singleton, not_or] at h2
+      rcases List.mem_cons.1 hx with rfl | hx
+      · exact absurd rfl h2.2
+      · exact hI.done x hx h2.1 h3 h4
+    · intro x hx
+      exact hI.fresh x (fun h => hx (List.mem_cons_of_mem _ h))
+  -- an identity that the collector never gets to know (raw, or allocated while stopped)
+  have hloose : ∀ (g' : Ghost), g'.allocd = a :: g.allocd →
+      (∀ x, x ∈ g'.rawLive ∨ x ∈ g'.lost ↔ x = a ∨ (x ∈ g.rawLive ∨ x ∈ g.lost)) →
+      (∀ x ∈ g'.rawLive, x ∉ g'.lost) → Inv g' s := by
+    intro g' hal hlo hsep
+    refine ⟨hI.pending, hI.nodup, ?_, ?_, ?_, ?_, hsep, hI.nodalloc⟩
+    · intro x hx
+      obtain ⟨r1, r2, r3, r4⟩ := hI.reg x hx
+      have hxa : x ≠ a := fun h => hareg (h ▸ hx)
+      refine ⟨by rw [hal]; exact List.mem_cons_of_mem _ r1, ?_, ?_, r4⟩
+      · intro h
+        rcases (hlo x).1 (Or.inl h) with h | h | h
+        · exact hxa h
+        · exact r2 h
+        · exact r3 h
+      · intro h
+        rcases (hlo x).1 (Or.inr h) with h | h | h
+        · exact hxa h
+        · exact r2 h
+        · exact r3 h
+    · intro x hx
+      rcases (hlo x).1 hx with rfl | h
+      · exact ⟨by rw [hal]; exact List.mem_cons_self, hareg, hI.fresh _ hfresh⟩
+      · obtain ⟨l1, l2, l3⟩ := hI.loose x h
+        exact ⟨by rw [hal]; exact List.mem_cons_of_mem _ l1, l2, l3⟩
+    · intro x hx h2 h3 h4
+      rw [hal] at hx
+      rcases List.mem_cons.1 hx with rfl | hx
+      · have := (hlo x).2 (Or.inl rfl)
+        rcases this with h | h
+        · exact absurd h h3
+        · exact absurd h h4
+      · refine hI.done x hx h2 (fun h => ?_) (fun h => ?_)
+        · rcases (hlo x).2 (Or.inr (Or.inl h)) with h' | h'
+          · exact h3 h'
+          · exact h4 h'
+        · rcases (hlo x).2 (Or.inr (Or.inr h)) with h' | h'
+          · exact h3 h'
+          · exact h4 h'
+    · intro x hx
+      rw [hal] at hx
+      exact hI.fresh x (fun h => hx (List.mem_cons_of_mem _ h))
+  -- the registering cases share their proof
+  have hregcase : k ≠ .raw →
+      Inv (galloc g s a k) (allocBy Cfg.current s a k marks order) ∧
+      (∃ E, (allocBy Cfg.current s a k marks order).log = s.log ++ E) ∧
+      (s.running = true → (allocBy Cfg.current s a k marks order).running = true) ∧
+      (allocBy Cfg.current s a k marks order).pending = [] := by
+    intro hk
+    by_cases hrun : s.running = true
+    · have hg : galloc g s a k = { g with allocd := a :: g.allocd } := by
+        cases k <;> simp_all [galloc]
+      rw [hg]
+      by_cases hthr : s.reg.length + 1 > s.mitems
+      · rw [allocBy_reg_sweep _ _ _ _ hk hrun hthr]
+        obtain ⟨h1, D, E, he, _⟩ := inv_sweep (hregd (k == .root)) marks order
+        exact ⟨h1, ⟨E, he.log⟩, fun _ => by rw [he.running]; exact hrun, h1.pending⟩
+      · rw [allocBy_reg_plain _ _ _ _ hk hrun hthr]
+        exact ⟨hregd (k == .root), ⟨[], by simp⟩, fun _ => hrun, hI.pending⟩
+    · have hrun' : s.running = false := by simpa using hrun
+      have hg : galloc g s a k = { g with allocd := a :: g.allocd, lost := a :: g.lost } := by
+        cases k <;> simp_all [galloc]
+      rw [hg, allocBy_stopped _ _ _ _ _ hk hrun']
+      refine ⟨?_, ⟨[], by simp⟩, fun h => absurd h hrun, hI.pending⟩
+      refine hloose _ rfl ?_ ?_
+      · intro x; simp only [List.mem_cons]
+        constructor
+        · rintro (h | h | h)
+          · exact Or.inr (Or.inl h)
+          · exact Or.inl h
+          · exact Or.inr (Or.inr h)
+        · rintro (h | h | h)
+          · exact Or.inr (Or.inl h)
+          · exact Or.inl h
+          · exact Or.inr (Or.inr h)
+      · intro x hx
+        simp only [List.mem_cons, not_or]
+        exact ⟨fun h => hfresh (h ▸ (hI.loose x (Or.inl hx)).1), hI.sep x hx⟩
+  cases k with
+  | raw =>
+    have hg : galloc g s a .raw = { g with allocd := a :: g.allocd, rawLive := a :: g.rawLive } := rfl
+    rw [hg, allocBy_raw]
+    refine ⟨?_, ⟨[], by simp⟩, fun h => h, hI.pending⟩
+    refine hloose _ rfl ?_ ?_
+    · intro x; simp only [List.mem_cons]
+      constructor
+      · rintro ((h | h) | h)
+        · exact Or.inl h
+        · exact Or.inr (Or.inl h)
+        · exact Or.inr (Or.inr h)
+      · rintro (h | h | h)
+        · exact Or.inl (Or.inl h)
+        · exact Or.inl (Or.inr h)
+        · exact Or.inr h
+    · intro x hx
+      rcases List.mem_cons.1 hx with rfl | hx
+      · exact fun h => hfresh (hI.loose _ (Or.inr h)).1
+      · exact hI.sep x hx
+  | std => exact hregcase (by simp)
+  | root => exact hregcase (by simp)
+
+/-- `dealloc(destruct(a))` of a raw object that has not been released yet (`del_raw`, or the program's own `dealloc`) -/
+theorem inv_finalise_raw {g : Ghost} {s : St} (hI : Inv g s) (a : Addr) (hraw : a ∈ g.rawLive) :
+    Inv { g with rawLive := g.rawLive.filter (fun x => x != a) } (finalise (fuelFor s) Cfg.current s a) ∧
+      (∃ E, (finalise (fuelFor s) Cfg.current s a).log = s.log ++ E) ∧
+      (s.running = true → (finalise (fuelFor s) Cfg.current s a).running = true) := by
+  obtain ⟨D, E, he, hg, ht, _⟩ := finalise_spec (fuelFor s) s a hI.disj hI.nodalloc (mu_lt_fuelFor s)
+  have hD0 : ∀ d ∈ D, d ∈ s.regAddrs := fun d hd => hI.tracked (ht d hd)
+  have haD : a ∉ D := fun h => (hI.loose a (Or.inl hraw)).2.1 (hD0 a h)
+  refine ⟨?_, ⟨_, he.log⟩, fun hr => by rw [he.running, hr]⟩
+  refine inv_eff_gen (X := [a]) (D := a :: D) hI he (hg.bracket haD) ?_ hD0 ?_ rfl rfl ?_
+  · intro d; simp only [List.mem_cons, List.not_mem_nil, or_false]; exact Or.comm
+  · intro x hx; rw [List.mem_singleton] at hx; subst hx; exact hraw
+  · intro x
+    show x ∈ g.rawLive.filter (fun y => y != a) ↔ _
+    simp [List.mem_filter]
+
+/-- every operation of a well-formed history in which no destructor allocates keeps the invariant, only appends to the
+    ledger, and changes `running` only if it is `stop`/`start` -/
+theorem inv_step {g : Ghost} {s : St} (hI : Inv g s) (op : Op) (hok : OpOk g op) (hnd : op.isDtor = false) :
     Inv (gstep g s op) (step Cfg.current s op) ∧ (∃ E, (step Cfg.current s op).log = s.log ++ E) ∧
       (op ≠ .stop → s.running = true → (step Cfg.current s op).running = true) := by
   cases op with
   | stop =>
-    refine ⟨hI.congr rfl rfl rfl, ⟨[], by simp [step]⟩, fun h => absurd rfl h⟩
+    refine ⟨hI.congr rfl rfl rfl rfl, ⟨[], by simp [step]⟩, fun h => absurd rfl h⟩
   | start =>
-    refine ⟨hI.congr rfl rfl rfl, ⟨[], by simp [step]⟩, fun _ _ => rfl⟩
+    refine ⟨hI.congr rfl rfl rfl rfl, ⟨[], by simp [step]⟩, fun _ _ => rfl⟩
   | own a owned =>
-    refine ⟨hI.congr rfl rfl rfl, ⟨[], by simp [step]⟩, fun _ h => h⟩
+    refine ⟨hI.congr rfl rfl rfl rfl, ⟨[], by simp [step]⟩, fun _ h => h⟩
+  | dtor a l => exact absurd hnd (by simp [Op.isDtor])
   | collect marks order =>
     obtain ⟨h1, D, E, he, _⟩ := inv_sweep hI marks order
     exact ⟨h1, ⟨E, he.log⟩, fun _ hr => by show (sweep _ _ _ _).running = true; rw [he.running, hr]⟩
   | teardown order =>
     obtain ⟨h1, D, E, he, _⟩ := inv_sweep hI [] order
     exact ⟨h1, ⟨E, he.log⟩, fun _ hr => by show (sweep _ _ _ _).running = true; rw [he.running, hr]⟩
+  | dealloc a k =>
+    obtain ⟨h1, h2, h3⟩ := inv_finalise_raw hI a hok
+    exact ⟨h1, h2, fun _ => h3⟩
   | del a k =>
     cases k with
     | raw =>
-      have hraw : a ∈ g.rawLive := hok
-      obtain ⟨D, E, he, hg, ht, _⟩ := finalise_spec (fuelFor s) s a hI.disj (mu_lt_fuelFor s)
-      have hD0 : ∀ d ∈ D, d ∈ s.regAddrs := fun d hd => hI.tracked (ht d hd)
-      have haD : a ∉ D := fun h => (hI.loose a (Or.inl hraw)).2.1 (hD0 a h)
-      refine ⟨?_, ⟨_, he.log⟩, fun _ hr => by show (finalise _ _ _ _).running = true; rw [he.running, hr]⟩
-      refine inv_eff_gen (X := [a]) (D := a :: D) hI he (hg.bracket haD) ?_ hD0 ?_ rfl rfl ?_
-      · intro d; simp only [List.mem_cons, List.not_mem_nil, or_false]; exact Or.comm
-      · intro x hx; rw [List.mem_singleton] at hx; subst hx; exact hraw
-      · intro x
-        show x ∈ g.rawLive.filter (fun y => y != a) ↔ _
-        simp [List.mem_filter]
+      obtain ⟨h1, h2, h3⟩ := inv_finalise_raw hI a hok
+      exact ⟨h1, h2, fun _ => h3⟩
     | std =>
-      have hfin : ∀ s1 b, Disj s1 → mu s1 < fuelFor s → FinSpec s1 b (finalise (fuelFor s) Cfg.current s1 b) :=
-        fun s1 b hd hm => finalise_spec (fuelFor s) s1 b hd hm
-      obtain ⟨D, E, he, hg, ht, _⟩ := gcRem_spec hfin s a hI.disj (Nat.le_of_lt (mu_lt_fuelFor s))
+      have hfin : ∀ s1 b, Disj s1 → NoDAlloc s1 → mu s1 < fuelFor s → FinSpec s1 b (finalise (fuelFor s) Cfg.current s1 b) :=
+        fun s1 b hd hn hm => finalise_spec (fuelFor s) s1 b hd hn hm
+      obtain ⟨D, E, he, hg, ht, _⟩ := gcRem_spec hfin s a hI.disj hI.nodalloc (Nat.le_of_lt (mu_lt_fuelFor s))
       exact ⟨inv_eff hI he hg (fun d hd => hI.tracked (ht d hd)), ⟨E, he.log⟩,
         fun _ hr => by show (gcRem _ _ _ _).running = true; rw [he.running, hr]⟩
     | root =>
-      have hfin : ∀ s1 b, Disj s1 → mu s1 < fuelFor s → FinSpec s1 b (finalise (fuelFor s) Cfg.current s1 b) :=
-        fun s1 b hd hm => finalise_spec (fuelFor s) s1 b hd hm
-      obtain ⟨D, E, he, hg, ht, _⟩ := gcRem_spec hfin s a hI.disj (Nat.le_of_lt (mu_lt_fuelFor s))
+      have hfin : ∀ s1 b, Disj s1 → NoDAlloc s1 → mu s1 < fuelFor s → FinSpec s1 b (finalise (fuelFor s) Cfg.current s1 b) :=
+        fun s1 b hd hn hm => finalise_spec (fuelFor s) s1 b hd hn hm
+      obtain ⟨D, E, he, hg, ht, _⟩ := gcRem_spec hfin s a hI.disj hI.nodalloc (Nat.le_of_lt (mu_lt_fuelFor s))
       exact ⟨inv_eff hI he hg (fun d hd => hI.tracked (ht d hd)), ⟨E, he.log⟩,
         fun _ hr => by show (gcRem _ _ _ _).running = true; rw [he.running, hr]⟩
+  | alloc a k marks order =>
+    obtain ⟨h1, h2, h3, _⟩ := inv_allocBy hI a k marks order hok
+    exact ⟨h1, h2, fun _ => h3⟩
   | new a k owned marks order =>
-    have hfresh : a ∉ g.allocd := hok
-    have hareg : a ∉ s.regAddrs := fun h => hfresh (hI.reg a h).1
-    -- registration of a fresh identity (new / new_root, collector running)
-    have hregd : ∀ (root : Bool), Inv { g with allocd := a :: g.allocd } { s with reg := s.reg ++ [⟨a, root⟩] } := by
-      intro root
-      have hra : ({ s with reg := s.reg ++ [⟨a, root⟩] } : St).regAddrs = s.regAddrs ++ [a] := by
-        simp [St.regAddrs]
-      refine ⟨hI.pending, ?_, ?_, ?_, ?_, ?_, hI.sep⟩
-      · rw [hra, List.nodup_append]
-        refine ⟨hI.nodup, by simp, ?_⟩
-        intro x hx y hy hxy
-        rw [List.mem_singleton] at hy; subst hy; subst hxy; exact hareg hx
-      · intro x hx
-        rw [hra, List.mem_append, List.mem_singleton] at hx
-        rcases hx with hx | rfl
-        · obtain ⟨r1, r2, r3, r4⟩ := hI.reg x hx
-          exact ⟨List.mem_cons_of_mem _ r1, r2, r3, r4⟩
-        · exact ⟨List.mem_cons_self, fun h => hfresh (hI.loose _ (Or.inl h)).1,
-            fun h => hfresh (hI.loose _ (Or.inr h)).1, hI.fresh _ hfresh⟩
-      · intro x hx
-        obtain ⟨l1, l2, l3⟩ := hI.loose x hx
-        refine ⟨List.mem_cons_of_mem _ l1, ?_, l3⟩
-        rw [hra, List.mem_append, List.mem_singleton, not_or]
-        exact ⟨l2, fun h => hfresh (h ▸ l1)⟩
-      · intro x hx h2 h3 h4
-        rw [hra, List.mem_append, List.mem_singleton, not_or] at h2
-        rcases List.mem_cons.1 hx with rfl | hx
-        · exact absurd rfl h2.2
-        · exact hI.done x hx h2.1 h3 h4
-      · intro x hx
-        exact hI.fresh x (fun h => hx (List.mem_cons_of_mem _ h))
-    -- an identity that the collector never gets to know (raw, or allocated while stopped)
-    have hloose : ∀ (g' : Ghost), g'.allocd = a :: g.allocd →
-        (∀ x, x ∈ g'.rawLive ∨ x ∈ g'.lost ↔ x = a ∨ (x ∈ g.rawLive ∨ x ∈ g.lost)) →
-        (∀ x ∈ g'.rawLive, x ∉ g'.lost) → Inv g' s := by
-      intro g' hal hlo hsep
-      refine ⟨hI.pending, hI.nodup, ?_, ?_, ?_, ?_, hsep⟩
-      · intro x hx
-        obtain ⟨r1, r2, r3, r4⟩ := hI.reg x hx
-        have hxa : x ≠ a := fun h => hareg (h ▸ hx)
-        refine ⟨by rw [hal]; exact List.mem_cons_of_mem _ r1, ?_, ?_, r4⟩
-        · intro h
-          rcases (hlo x).1 (Or.inl h) with h | h | h
-          · exact hxa h
-          · exact r2 h
-          · exact r3 h
-        · intro h
-          rcases (hlo x).1 (Or.inr h) with h | h | h
-          · exact hxa h
-          · exact r2 h
-          · exact r3 h
-      · intro x hx
-        rcases (hlo x).1 hx with rfl | h
-        · exact ⟨by rw [hal]; exact List.mem_cons_self, hareg, hI.fresh _ hfresh⟩
-        · obtain ⟨l1, l2, l3⟩ := hI.loose x h
-          exact ⟨by rw [hal]; exact List.mem_cons_of_mem _ l1, l2, l3⟩
-      · intro x hx h2 h3 h4
-        rw [hal] at hx
-        rcases List.mem_cons.1 hx with rfl | hx
-        · have := (hlo x).2 (Or.inl rfl)
-          rcases this with h | h
-          · exact absurd h h3
-          · exact absurd h h4
-        · refine hI.done x hx h2 (fun h => ?_) (fun h => ?_)
-          · rcases (hlo x).2 (Or.inr (Or.inl h)) with h' | h'
-            · exact h3 h'
-            · exact h4 h'
-          · rcases (hlo x).2 (Or.inr (Or.inr h)) with h' | h'
-            · exact h3 h'
-            · exact h4 h'
-      · intro x hx
-        rw [hal] at hx
-        exact hI.fresh x (fun h => hx (List.mem_cons_of_mem _ h))
-    -- the registering cases share their proof
-    have hregcase : k ≠ .raw →
-        Inv (gstep g s (.new a k owned marks order)) (step Cfg.current s (.new a k owned marks order)) ∧
-        (∃ E, (step Cfg.current s (.new a k owned marks order)).log = s.log ++ E) ∧
-        (s.running = true → (step Cfg.current s (.new a k owned marks order)).running = true) := by
-      intro hk
-      by_cases hrun : s.running = true
-      · have hg : gstep g s (.new a k owned marks order) = { g with allocd := a :: g.allocd } := by
-          cases k <;> simp_all [gstep]
-        rw [hg]
-        by_cases hthr : s.reg.length + 1 > s.mitems
-        · rw [step_new_reg_sweep _ _ _ _ _ _ hk hrun hthr]
-          obtain ⟨h1, D, E, he, _⟩ := inv_sweep (hregd (k == .root)) marks order
-          exact ⟨h1.congr rfl rfl rfl, ⟨E, he.log⟩, fun _ => by
-            show (sweep _ _ _ _).running = true
-            rw [he.running]; exact hrun⟩
-        · rw [step_new_reg_plain _ _ _ _ _ _ hk hrun hthr]
-          exact ⟨(hregd (k == .root)).congr rfl rfl rfl, ⟨[], by simp⟩, fun _ => hrun⟩
-      · have hrun' : s.running = false := by simpa using hrun
-        have hg : gstep g s (.new a k owned marks order) = { g with allocd := a :: g.allocd, lost := a :: g.lost } := by
-          cases k <;> simp_all [gstep]
-        rw [hg, step_new_stopped _ _ _ _ _ _ hk hrun']
-        refine ⟨?_, ⟨[], by simp⟩, fun h => absurd h hrun⟩
-        refine (hloose _ rfl ?_ ?_).congr rfl rfl rfl
-        · intro x; simp only [List.mem_cons]
-          constructor
-          · rintro (h | h | h)
-            · exact Or.inr (Or.inl h)
-            · exact Or.inl h
-            · exact Or.inr (Or.inr h)
-          · rintro (h | h | h)
-            · exact Or.inr (Or.inl h)
-            · exact Or.inl h
-            · exact Or.inr (Or.inr h)
-        · intro x hx
-          simp only [List.mem_cons, not_or]
-          exact ⟨fun h => hfresh (h ▸ (hI.loose x (Or.inl hx)).1), hI.sep x hx⟩
-    cases k with
-    | raw =>
-      have hs := step_new_raw Cfg.current s a owned marks order
-      have hg : gstep g s (.new a .raw owned marks order) = { g with allocd := a :: g.allocd, rawLive := a :: g.rawLive } := by
-        simp [gstep]
-      rw [hg, hs]
-      refine ⟨?_, ⟨[], by simp⟩, fun _ h => h⟩
-      refine (hloose _ rfl ?_ ?_).congr rfl rfl rfl
-      · intro x; simp only [List.mem_cons]
-        constructor
-        · rintro ((h | h) | h)
-          · exact Or.inl h
-          · exact Or.inr (Or.inl h)
-          · exact Or.inr (Or.inr h)
-        · rintro (h | h | h)
-          · exact Or.inl (Or.inl h)
-          · exact Or.inl (Or.inr h)
-          · exact Or.inr h
-      · intro x hx
-        rcases List.mem_cons.1 hx with rfl | hx
-        · exact fun h => hfresh (hI.loose _ (Or.inr h)).1
-        · exact hI.sep x hx
-    | std =>
-      obtain ⟨h1, h2, h3⟩ := hregcase (by simp)
-      exact ⟨h1, h2, fun _ => h3⟩
-    | root =>
-      obtain ⟨h1, h2, h3⟩ := hregcase (by simp)
-      exact ⟨h1, h2, fun _ => h3⟩
+    obtain ⟨h1, ⟨E, h2⟩, h3, _⟩ := inv_allocBy hI a k marks order hok
+    exact ⟨h1.congr rfl rfl rfl rfl, ⟨E, h2⟩, fun _ => h3⟩
 
 /-- `del`/`del_root` of a registered object with the collector running: the object and everything registered that its
     destructor deletes are finalised exactly once, now, and leave the registry -/
@@ -397,11 +437,12 @@ theorem gcRem_registered {g : Ghost} {s : St} (hI : Inv g s) (b : Addr) (hrun : 
   generalize hs1 : ({ s with reg := eraseReg b s.reg } : St) = s1
   have he : Eff s s1 [b] [] := by
     rw [← hs1]
-    refine ⟨by simp [eraseReg_eq], ?_, rfl, rfl, by simp⟩
+    refine ⟨by simp [eraseReg_eq], ?_, rfl, rfl, by simp, rfl⟩
     show s.pending = strikeAll [b] s.pending
     rw [hI.pending]; rfl
   have hlt : mu s1 < fuelFor s := Nat.lt_of_le_of_lt he.mu_le (mu_lt_fuelFor _)
-  obtain ⟨D, E, heff, hgood, htr, _, hcompl, _⟩ := finalise_spec (fuelFor s) s1 b (he.disj hI.disj) hlt
+  obtain ⟨D, E, heff, hgood, htr, _, hcompl, _⟩ :=
+    finalise_spec (fuelFor s) s1 b (he.disj hI.disj) (he.nodalloc hI.nodalloc) hlt
   have hbD : b ∉ D := fun hd => ((he.tracked b).1 (htr b hd)).2 (List.mem_singleton.2 rfl)
   have hres : gcRem (finalise (fuelFor s) Cfg.current) Cfg.current s b =
       { finalise (fuelFor s) Cfg.current s1 b with
@@ -433,14 +474,29 @@ theorem gcRem_registered {g : Ghost} {s : St} (hI : Inv g s) (b : Addr) (hrun : 
       exact ⟨honce x (List.mem_cons_of_mem _ hxD) hxreg, fun hc => ((hmemreg x).1 hc).2 (by simp [hxD])⟩
 
 /-- the invariant holds after every well-formed history -/
-theorem inv_run : ∀ (ops : List Op) (g : Ghost) (s : St), Inv g s → WF g s ops →
+theorem NoDtor.head {op : Op} {ops : List Op} (h : NoDtor (op :: ops)) : op.isDtor = false :=
+  h op List.mem_cons_self
+
+theorem NoDtor.tail {op : Op} {ops : List Op} (h : NoDtor (op :: ops)) : NoDtor ops :=
+  fun o ho => h o (List.mem_cons_of_mem _ ho)
+
+theorem NoDtor.append {a b : List Op} : NoDtor (a ++ b) ↔ NoDtor a ∧ NoDtor b := by
+  unfold NoDtor
+  constructor
+  · intro h; exact ⟨fun o ho => h o (List.mem_append_left _ ho), fun o ho => h o (List.mem_append_right _ ho)⟩
+  · rintro ⟨h1, h2⟩ o ho
+    rcases List.mem_append.1 ho with ho | ho
+    · exact h1 o ho
+    · exact h2 o ho
+
+theorem inv_run : ∀ (ops : List Op) (g : Ghost) (s : St), Inv g s → WF g s ops → NoDtor ops →
     Inv (grun g s ops) (run Cfg.current s ops) := by
   intro ops
   induction ops with
-  | nil => intro g s h _; exact h
+  | nil => intro g s h _ _; exact h
   | cons op ops ih =>
-    intro g s h hw
-    exact ih _ _ (inv_step h op hw.1).1 hw.2
+    intro g s h hw hnd
+    exact ih _ _ (inv_step h op hw.1 hnd.head).1 hw.2 hnd.tail
 
 theorem run_append (c : Cfg) (s : St) (a b : List Op) : run c s (a ++ b) = run c (run c s a) b := by
   unfold run; rw [List.foldl_append]
@@ -464,31 +520,38 @@ theorem grun_append : ∀ (a b : List Op) (g : Ghost) (s : St),
   | cons op a ih => intro b g s; simp only [List.cons_append, grun]; rw [ih]; simp [run]
 
 /-- `running` stays true along a history without `stop`, and then nothing is ever lost -/
-theorem running_run : ∀ (ops : List Op) (g : Ghost) (s : St), Inv g s → WF g s ops →
+theorem running_run : ∀ (ops : List Op) (g : Ghost) (s : St), Inv g s → WF g s ops → NoDtor ops →
     (∀ op ∈ ops, op ≠ Op.stop) → s.running = true → g.lost = [] →
     (run Cfg.current s ops).running = true ∧ (grun g s ops).lost = [] := by
   intro ops
   induction ops with
-  | nil => intro g s _ _ _ hr hl; exact ⟨hr, hl⟩
+  | nil => intro g s _ _ _ _ hr hl; exact ⟨hr, hl⟩
   | cons op ops ih =>
-    intro g s h hw hns hr hl
-    obtain ⟨h1, _, h3⟩ := inv_step h op hw.1
+    intro g s h hw hnd hns hr hl
+    obtain ⟨h1, _, h3⟩ := inv_step h op hw.1 hnd.head
     have hl' : (gstep g s op).lost = [] := by
       cases op with
-      | new a k owned marks order => cases k <;> simp [gstep, hr, hl]
+      | new a k owned marks order => cases k <;> simp [gstep, galloc, hr, hl]
+      | alloc a k marks order => cases k <;> simp [gstep, galloc, hr, hl]
       | del a k => cases k <;> simp [gstep, hl]
       | _ => simpa [gstep] using hl
-    exact ih _ _ h1 hw.2 (fun o ho => hns o (List.mem_cons_of_mem _ ho))
+    exact ih _ _ h1 hw.2 hnd.tail (fun o ho => hns o (List.mem_cons_of_mem _ ho))
       (h3 (hns op List.mem_cons_self) hr) hl'
+
+theorem allocd_galloc (g : Ghost) (s : St) (b : Addr) (k : Kind) {a : Addr} (h : a = b ∨ a ∈ g.allocd) :
+    a ∈ (galloc g s b k).allocd := by
+  have : a ∈ b :: g.allocd := List.mem_cons.2 h
+  cases k with
+  | raw => exact this
+  | std => simp only [galloc]; split <;> exact this
+  | root => simp only [galloc]; split <;> exact this
 
 theorem allocd_mono_step (g : Ghost) (s : St) (op : Op) {a : Addr} (h : a ∈ g.allocd) : a ∈ (gstep g s op).allocd := by
   cases op with
-  | new b k owned marks order =>
-    cases k with
-    | raw => exact List.mem_cons_of_mem _ h
-    | std => simp only [gstep]; split <;> exact List.mem_cons_of_mem _ h
-    | root => simp only [gstep]; split <;> exact List.mem_cons_of_mem _ h
+  | new b k owned marks order => exact allocd_galloc g s b k (Or.inr h)
+  | alloc b k marks order => exact allocd_galloc g s b k (Or.inr h)
   | del b k => cases k <;> simp [gstep, h]
+  | dtor b l => exact List.mem_append_right _ h
   | _ => simpa [gstep] using h
 
 theorem allocd_mono : ∀ (ops : List Op) (g : Ghost) (s : St) {a : Addr}, a ∈ g.allocd → a ∈ (grun g s ops).allocd := by
@@ -509,10 +572,21 @@ theorem allocd_of_new : ∀ (ops : List Op) (g : Ghost) (s : St) {a : Addr} {k :
     · subst h
       simp only [grun]
       apply allocd_mono
-      cases k with
-      | raw => exact List.mem_cons_self
-      | std => simp only [gstep]; split <;> exact List.mem_cons_self
-      | root => simp only [gstep]; split <;> exact List.mem_cons_self
+      exact allocd_galloc g s a k (Or.inl rfl)
+    · exact ih _ _ h
+
+theorem allocd_of_alloc : ∀ (ops : List Op) (g : Ghost) (s : St) {a : Addr} {k : Kind} {marks order : List Addr},
+    Op.alloc a k marks order ∈ ops → a ∈ (grun g s ops).allocd := by
+  intro ops
+  induction ops with
+  | nil => intro g s a k marks order h; simp at h
+  | cons op ops ih =>
+    intro g s a k marks order h
+    rcases List.mem_cons.1 h with h | h
+    · subst h
+      simp only [grun]
+      apply allocd_mono
+      exact allocd_galloc g s a k (Or.inl rfl)
     · exact ih _ _ h
 
 /-- a history run by a fresh collector meets the program's obligations -/
@@ -527,7 +601,45 @@ def final (ops : List Op) : St := run Cfg.current St.init ops
     allocated with `new`/`new_root` while the collector was stopped -/
 def ghost (ops : List Op) : Ghost := grun Ghost.init St.init ops
 
-theorem inv_final (ops : List Op) (h : WellFormed ops) : Inv (ghost ops) (final ops) :=
-  inv_run ops _ _ Inv.init h
+theorem inv_final (ops : List Op) (h : WellFormed ops) (hnd : NoDtor ops) : Inv (ghost ops) (final ops) :=
+  inv_run ops _ _ Inv.init h hnd
+
+/-- `dealloc(destruct(a))` by the program — as `del_raw` (`op = .del a .raw`) or spelled out (`op = .dealloc a k`) — of a
+    raw object it has not released yet -/
+theorem release_raw_now (ops : List Op) (h : WellFormed ops) (hnd : NoDtor ops) (a : Addr) (ha : a ∈ (ghost ops).rawLive)
+    (op : Op) (hop : op = .del a .raw ∨ ∃ k, op = .dealloc a k) :
+    Once a (final (ops ++ [op])).log := by
+  have hok : OpOk (ghost ops) op := by rcases hop with rfl | ⟨k, rfl⟩ <;> exact ha
+  have hdt : op.isDtor = false := by rcases hop with rfl | ⟨k, rfl⟩ <;> rfl
+  have hst : step Cfg.current (final ops) op = finalise (fuelFor (final ops)) Cfg.current (final ops) a := by
+    rcases hop with rfl | ⟨k, rfl⟩ <;> rfl
+  have hgs : gstep (ghost ops) (final ops) op =
+      { ghost ops with rawLive := (ghost ops).rawLive.filter (fun x => x != a) } := by
+    rcases hop with rfl | ⟨k, rfl⟩ <;> rfl
+  have hw : WellFormed (ops ++ [op]) := by
+    unfold WellFormed
+    rw [wf_append]
+    exact ⟨h, hok, trivial⟩
+  have hnd' : NoDtor (ops ++ [op]) := NoDtor.append.2 ⟨hnd, fun o ho => by rw [List.mem_singleton] at ho; rw [ho]; exact hdt⟩
+  have hI := inv_final _ hw hnd'
+  have hI0 := inv_final ops h hnd
+  have hgh : ghost (ops ++ [op]) = gstep (ghost ops) (final ops) op := by
+    unfold ghost final; rw [grun_append]; rfl
+  have hs' : final (ops ++ [op]) = finalise (fuelFor (final ops)) Cfg.current (final ops) a := by
+    unfold final; rw [run_append]; exact hst
+  have hal : a ∈ (ghost (ops ++ [op])).allocd := by
+    rw [hgh, hgs]; exact (hI0.loose a (Or.inl ha)).1
+  have hnr : a ∉ (ghost (ops ++ [op])).rawLive := by
+    rw [hgh, hgs]; simp
+  have hnl : a ∉ (ghost (ops ++ [op])).lost := by
+    rw [hgh, hgs]; exact hI0.sep a ha
+  have hreg : a ∉ (final (ops ++ [op])).regAddrs := by
+    obtain ⟨D, E, he, _⟩ := finalise_spec (fuelFor (final ops)) (final ops) a hI0.disj hI0.nodalloc (mu_lt_fuelFor _)
+    rw [hs']
+    unfold St.regAddrs
+    rw [he.reg]
+    intro hc
+    exact (hI0.loose a (Or.inl ha)).2.1 (mem_regWithout_addrs.1 hc).1
+  exact hI.done a hal hreg hnr hnl
 
 end Cello.Life
